@@ -492,7 +492,7 @@ def gen_pairs(rng, pool, n):
     return [[rng.choice(pool), rng.choice(VALUES)] for _ in range(n)]
 
 
-def gen_op(rng, st, pool):
+def gen_op(rng, st, pool, done=()):
     """next operation, given the oracle's view of which variables hold dictionaries"""
     refs = st.ref_vars()
     if not refs:
@@ -501,6 +501,11 @@ def gen_op(rng, st, pool):
     k = rng.choice(pool)
     r = rng.random()
     if r < 0.08:
+        earlier = [o for o in done if o["op"] == "lit"]
+        if earlier and rng.random() < 0.6:
+            # the BYTE-IDENTICAL top-level statement again (parse-cache hit in the interpreter):
+            # it must still yield a fresh dictionary, whatever happened to the one it produced before
+            return json.loads(json.dumps(rng.choice(earlier)))
         return dict(op="lit", x=rng.choice(VARS), ps=gen_pairs(rng, pool, rng.randrange(0, 5)))
     if r < 0.11 or (r < 0.24 and not st.protos):
         return dict(op="deffn", f=rng.choice(FNS), form=rng.choice(["plain", "local"]),
@@ -647,7 +652,7 @@ def run_history(ctx, drv, label, ops=None, pool=None, length=0, classify=True, r
         ctx.bump("oracle-failure:" + key)
 
     for i in range(n):
-        op = ops[i] if fixed else gen_op(ctx.rng, oracle, pool)
+        op = ops[i] if fixed else gen_op(ctx.rng, oracle, pool, done)
         done.append(op)
         try:
             exp = oracle.apply(op)
@@ -878,6 +883,21 @@ BUILTIN_HISTORIES = [
      dict(op="join", side="L", form="lit", d="dd", k=["y", "b"], v=["i", 1], into=None),
      dict(op="lit", x="da", ps=[[["y", "a"], ["i", 1]]]),
      dict(op="size", d="da")],
+    # the byte-identical top-level literal statement evaluated again after its first result was
+    # aliased and updated (the interpreter caches the parse of a source string)
+    [dict(op="lit", x="da", ps=[[["i", 1], ["i", 10]]]),
+     dict(op="alias", x="db", d="da"),
+     dict(op="join", side="L", form="lit", d="da", k=["i", 2], v=["i", 20], into=None),
+     dict(op="lit", x="da", ps=[[["i", 1], ["i", 10]]]),
+     dict(op="size", d="da"),
+     dict(op="join", side="L", form="lit", d="da", k=["i", 3], v=["i", 30], into=None),
+     dict(op="find", d="db", k=["i", 3], into=None),
+     dict(op="remove", d="db", k=["i", 1], into=None),
+     dict(op="find", d="da", k=["i", 1], into=None),
+     dict(op="lit", x="dc", ps=[]),
+     dict(op="join", side="R", form="lit", d="dc", k=["s", "k"], v=["i", 1], into=None),
+     dict(op="lit", x="dc", ps=[]),
+     dict(op="size", d="dc")],
     # a dictionary stored as a value, found again and updated through that path
     [dict(op="lit", x="da", ps=[]),
      dict(op="lit", x="db", ps=[[["i", 0], ["c", "x"]]]),
@@ -917,9 +937,9 @@ def run(ctx):
         ctx.extra["char_symbol_finding_reproduces"] = bool(ctx.known_hits) or any(
             f["key"] == KNOWN_CHAR_SYM for f in ctx.oracle_failures)
         # 2. corpus + built-in histories
-        for h in BUILTIN_HISTORIES[:2]:
+        for h in BUILTIN_HISTORIES[:3]:
             run_history(ctx, drv, "builtin", ops=h, record=recorded)
-        for h in BUILTIN_HISTORIES[2:]:
+        for h in BUILTIN_HISTORIES[3:]:
             run_history(ctx, drv, "builtin", ops=h)
         cdir = common.CORPUS / "C10"
         if cdir.exists():
